@@ -314,6 +314,8 @@ class MTVRPEnv(RL4COEnvBase):
             td["time_windows"][..., :, 0] + d_j0 / td["speed"] + td["service_time"]
             <= td["time_windows"][..., 0, 1, None]
         ), "vehicle cannot perform service and get back to depot in time."
+        # the last route also ends at the depot, whether or not the actions say so
+        actions = torch.cat([actions, torch.zeros_like(actions[:, :1])], dim=1)
         # check individual time windows
         curr_time = torch.zeros(batch_size, dtype=torch.float32, device=td.device)
         curr_node = torch.zeros(batch_size, dtype=torch.int64, device=td.device)
@@ -362,6 +364,18 @@ class MTVRPEnv(RL4COEnvBase):
 
         _check_c1("demand_linehaul")
         _check_c1("demand_backhaul")
+
+        # (B) within a route all linehauls are served before the backhauls
+        has_backhaul = torch.zeros(batch_size, dtype=torch.bool, device=td.device)
+        for ii in range(actions.size(1)):
+            node = actions[:, ii : ii + 1]
+            has_backhaul = has_backhaul & (actions[:, ii] != 0)  # new route at the depot
+            assert not (
+                has_backhaul & (td["demand_linehaul"].gather(1, node).squeeze(1) > 0)
+            ).any(), "Linehaul served after a backhaul in the same route"
+            has_backhaul = has_backhaul | (
+                td["demand_backhaul"].gather(1, node).squeeze(1) > 0
+            )
 
     def load_data(self, fpath, batch_size=[], scale=False):
         """Dataset loading from file
